@@ -120,6 +120,38 @@ def make(shape: Dict[str, Any]) -> Any:
     return fn
 
 
+def make_send_guard(shape: Dict[str, Any]) -> Any:
+    """Zeroconf.async_send: a datagram above the absolute limit is never handed to a socket (and ends the sequence); every
+    datagram up to the limit is.  The datagram lengths are solver variables."""
+
+    def fn(ctx: Any) -> None:
+        loop = env.begin(ctx, 1000)
+        env.use_token_packets(False)
+        from zeroconf._logger import QuietLogger
+
+        QuietLogger._seen_logs.clear()  # "warn once" memory is process-wide: every path starts from the same state
+        zc = env.make_zc(loop, n_transports=2)
+        lens = [ctx.int(f'datagram{i}_octets', 0, 70000) for i in range(2)]
+        class Built:  # an outgoing message as async_send uses it: a sequence of encoded datagrams
+            def packets(self) -> List[bytes]:
+                return [Blob(n) for n in lens]
+
+        zc.async_send(Built())  # type: ignore[arg-type]
+        if ctx.twin:
+            return
+        sent = [len(p) for _t, p, _a in zc.engine.senders[0].transport.sent]
+        sent2 = [len(p) for _t, p, _a in zc.engine.senders[1].transport.sent]
+        want = []
+        for n in lens:
+            if n > 8966:
+                break
+            want.append(n)
+        ctx.check(len(sent) == len(want) and all(a == b for a, b in zip(sent, want)), 'datagrams handed to the socket are not exactly the leading ones of at most 8966 octets')
+        ctx.check(len(sent2) == len(sent), 'the sockets did not get the same datagrams')
+
+    return fn
+
+
 def sh(**kw: Any) -> Dict[str, Any]:
     return kw
 
@@ -156,7 +188,9 @@ def obligations(tier: str) -> List[Obligation]:
     shapes = dict(QUICK)
     if tier == 'thorough':
         shapes.update(THOROUGH)
-    return [Obligation(f'packets[{k}]', make(v), 'packets', {'name': k, **v}, timeout=200 if tier == 'quick' else 900) for k, v in shapes.items()]
+    obs = [Obligation(f'packets[{k}]', make(v), 'packets', {'name': k, **v}, timeout=200 if tier == 'quick' else 900) for k, v in shapes.items()]
+    obs.append(Obligation('send-guard[two datagrams of symbolic length]', make_send_guard({}), 'send-guard', {}, timeout=120))
+    return obs
 
 
 META = {
@@ -168,10 +202,10 @@ META = {
     'functions': [
         'zeroconf._protocol.outgoing.DNSOutgoing.packets/_write_questions_from_offset/_write_answers_from_offset/_write_records_from_offset/_has_more_to_add/'
         '_write_question/_write_record/_check_data_limit_or_rollback/write_name/_write_utf/_write_link_to_name/_write_record_class/_write_ttl/write_string/'
-        'write_character_string/write_short/_insert_short_at_start/_replace_short/_reset_for_next_packet', 'DNSText/DNSAddress/DNSPointer/DNSService/DNSHinfo.write',
+        'write_character_string/write_short/_insert_short_at_start/_replace_short/_reset_for_next_packet', 'DNSText/DNSAddress/DNSPointer/DNSService/DNSHinfo.write', 'Zeroconf.async_send (oversize guard)',
     ],
     'bounds': {'rdata length': [0, MAXLEN], 'id': [0, 65535], 'entries': '<= 7 per message with <= 3 symbolic-length records (0..8900 octets); thorough also 141 entries with one symbolic-length record (0..300 octets)', 'names': 'fixed small vocabulary with shared suffixes'},
-    'outside': ['entries that cannot fit 8966 octets even alone (the code emits an empty datagram and stops)', 'more than about 140 entries; several symbolic lengths among hundreds of entries', 'label contents and name sharing patterns beyond the vocabulary (C01)', 'Zeroconf.async_send dropping datagrams above the absolute limit'],
+    'outside': ['entries that cannot fit 8966 octets even alone (the code emits an empty datagram and stops)', 'more than about 140 entries; several symbolic lengths among hundreds of entries', 'label contents and name sharing patterns beyond the vocabulary (C01)'],
     'stubs': ['DNSOutgoing._get_short/_write_int/_write_byte replaced by width-preserving value tokens (vkit.wire)', 'rdata blobs: bytes subclass with symbolic __len__ (vkit.pkt.Blob)',
               'DNSOutgoing._reset_for_next_packet wrapped to snapshot each datagram before the reset'],
     'float_sites': [],
